@@ -5,6 +5,7 @@ mod exec_l3;
 mod exec_l4;
 mod exec_pb;
 mod gen_pb;
+mod vrfcheck;
 mod faultdb;
 mod eval;
 mod gen_l1;
@@ -81,6 +82,7 @@ fn main() {
                     l1.restart_permille = r.parse().expect("--restart <permille>");
                 }
                 l1.readonly = args.iter().any(|a| a == "--readonly");
+                l1.thorough = arg(&args, "--tier").map(|t| t == "thorough").unwrap_or(false);
                 if let Some(s) = arg(&args, "--seed") {
                     l1.rng = rng::Rng::new(s.parse().unwrap_or(7));
                 }
@@ -146,7 +148,7 @@ fn main() {
                 let op = op.unwrap();
                 let line = line.unwrap();
                 let t: Vec<&str> = op.split_whitespace().collect();
-                if t.len() >= 2 && (t[0] == "reset" || t[0] == "fx.reset") {
+                if t.len() >= 2 && (t[0] == "reset" || t[0] == "fx.reset" || t[0] == "vrfin") {
                     ev.cfg = t[1].to_string();
                 }
                 writeln!(o, "{}", ev.line(&line)).unwrap();
